@@ -83,11 +83,31 @@ func c18(c *Ctx) {
 		at   ssa.Instruction
 		errV ssa.Value
 	}
+	runnableF := must(p.FieldOf(pkgSup, "node", "runnable"), "node.runnable")
+	ctxF := must(p.FieldOf(pkgSup, "node", "ctx"), "node.ctx")
+	// the service call: a dynamic call of the `runnable` field of a node (whatever the node
+	// variable is called)
+	isRunnableCall := func(cl *ssa.Call) (node ssa.Value, ok bool) {
+		if cl.Call.IsInvoke() || cl.Call.StaticCallee() != nil {
+			return nil, false
+		}
+		ld, isLd := cl.Call.Value.(*ssa.UnOp)
+		if !isLd || ld.Op != token.MUL {
+			return nil, false
+		}
+		fa, isFA := ld.X.(*ssa.FieldAddr)
+		if !isFA || fieldOfAddr(fa) != runnableF {
+			return nil, false
+		}
+		return fa.X, true
+	}
 	runnableCall := func(f *ssa.Function) *ssa.Call {
 		var run *ssa.Call
 		eachInstr(f, func(i ssa.Instruction) {
-			if cl, ok := i.(*ssa.Call); ok && strings.HasPrefix(facts.Term(cl), "dyn:n.runnable(") {
-				run = cl
+			if cl, ok := i.(*ssa.Call); ok {
+				if _, isRun := isRunnableCall(cl); isRun {
+					run = cl
+				}
 			}
 		})
 		return run
@@ -221,10 +241,21 @@ func c18(c *Ctx) {
 	}
 	// processSchedule starts the runnable with the node's current context
 	okRun := false
-	for _, f := range sched.AnonFuncs {
+	for _, f := range allUnder(sched) {
 		eachInstr(f, func(i ssa.Instruction) {
-			if cl, ok := i.(*ssa.Call); ok && facts.Term(cl) == "dyn:n.runnable(n.ctx)" {
-				okRun = true
+			cl, ok := i.(*ssa.Call)
+			if !ok {
+				return
+			}
+			nodeV, isRun := isRunnableCall(cl)
+			if !isRun || len(cl.Call.Args) != 1 {
+				return
+			}
+			// the argument is the ctx field of the same node
+			if ld, isLd := cl.Call.Args[0].(*ssa.UnOp); isLd && ld.Op == token.MUL {
+				if fa, isFA := ld.X.(*ssa.FieldAddr); isFA && fieldOfAddr(fa) == ctxF && (fa.X == nodeV || facts.Term(fa.X) == facts.Term(nodeV)) {
+					okRun = true
+				}
 			}
 		})
 	}
